@@ -183,7 +183,7 @@ def run(case):
         b.destroy()
     return None
 
-case = {'start': 1.0, 'stop': 5.0, 'dt': 1.0, 'base_rate': 2.0, 'scen': {'A': {'pts': [[0.0, 2.0], [10.0, 1.0]]}, 'B': {'rate': 0.5, 'pts': [[0.0, 0.0], [10.0, 1.0]]}}, 'base_constants': None, 'steps': {2: ('A', 2.0)}}
+case = {'start': 0.0, 'stop': 2.0, 'dt': 0.5, 'base_rate': 1.0, 'scen': {'B': {'pts': [[0.0, 2.0], [10.0, 4.0]]}, 'A': {'rate': 1.0, 'pts': [[0.0, 0.0], [10.0, 1.0]]}}, 'base_constants': 4.0, 'steps': {4: ('B', 2.0)}}
 bad = run(case)
 print("case:", case)
 print("FAIL: " + bad if bad else "PASS")
